@@ -226,6 +226,10 @@ def worker(job):
             oob = rnd.choice([m, m + 1, -1] + ([(1 << (m - 1).bit_length()) - 1] if (1 << (m - 1).bit_length()) - 1 >= m else []))
             v = replace_leaf(s, v, which, oob)
         src = "P = %s\nx = %s\nbits = P.pack(x)\nnb = P.bitlen()\ny = P.unpack(bits, 0)\n" % (ssrc, value_src(s, v, secret, None, bool_as))
+        if oob is None and not secret and rnd.random() < 0.3:
+            # values drawn by the schema's own random(): must be in range and round-trip
+            src = "P = %s\nx = P.random()\nbits = P.pack(x)\nnb = P.bitlen()\ny = P.unpack(bits, 0)\nassert y == x, (x, y)\n" % ssrc
+            v = None
         out = G.run_api(G.Prog(src, [], bl, 0), [], N, modulus=p)
         key = (ssrc, repr(v), secret, bool_as, bl)
         cell = "pack|%s|%s|%s" % (s[0], "secret" if secret else "plain", "oob" if oob is not None else "in")
@@ -236,7 +240,7 @@ def worker(job):
                 R.violation("pack-roundtrip-raised", "in-range %s value: %s" % ("secret" if secret else "plain", repr(out.exc)[:120]), **det)
                 continue
             R.count("pack_roundtrips_secret" if secret else "pack_roundtrips_plain")
-            if plain(out.ns["y"]) != plain_value(v) or len(out.ns["bits"]) != out.ns["nb"]:
+            if (v is not None and plain(out.ns["y"]) != plain_value(v)) or len(out.ns["bits"]) != out.ns["nb"]:
                 R.violation("pack-roundtrip-differs", "unpack(pack(x)) = %r for x = %r (bits %d, bitlen %d)" % (
                     plain(out.ns["y"]), v, len(out.ns["bits"]), out.ns["nb"]), **det)
             if out.snap["online_bad"]:
